@@ -202,6 +202,20 @@ def run_baseline(d, sc):
             true_name, _, tag = name.rpartition(TAG)
             recs.append(dict(name=true_name, seq=s, qual=q, adapter=tag, trimmed=tag != "no_adapter"))
         out[side] = recs
+    if sc.pair_adapters and sc.paired:
+        # two ranks may share the adapter sequence on one side; the name the program attaches to such a match is what is
+        # being tested, so on that side the name is taken from the partner's rank (both mates are trimmed by one rank)
+        n1, n2 = [a["name"] for a in sc.ads1], [a["name"] for a in sc.ads2]
+        d1 = len({a["spec"] for a in sc.ads1}) < len(sc.ads1)
+        d2 = len({a["spec"] for a in sc.ads2}) < len(sc.ads2)
+        if d1 != d2 and len(n1) == len(n2):
+            for r1, r2 in zip(out[1], out[2]):
+                if r1["trimmed"] and r2["trimmed"]:
+                    if d1 and r2["adapter"] in n2:
+                        r1["adapter"] = n1[n2.index(r2["adapter"])]
+                    elif d2 and r1["adapter"] in n1:
+                        r2["adapter"] = n2[n1.index(r1["adapter"])]
+            sc.shared_pair_adapter = True
     sc.base = out
     return out, run
 
